@@ -815,6 +815,24 @@ impl<'a> RefWriter<'a> {
                         }
                         let off = self.indirect((sid, 0), &RObj::Stream(d, enc), None);
                         ents.insert(sid, Ent::InUse(off, 0));
+                        // NOT legal PDF (C08 only): a second object stream that carries the SAME header number as this
+                        // one but other bodies for the same object numbers, reached through a row of its own - two
+                        // containers that cannot be told apart by their number
+                        if self.ghost_objects && self.ch.rng.chance(1, 3) {
+                            let mut index: Vec<u8> = vec![];
+                            let mut data_part: Vec<u8> = vec![];
+                            for n in &nums {
+                                index.extend_from_slice(format!("{} {} ", n, data_part.len()).as_bytes());
+                                data_part.extend_from_slice(format!("(twin of {} in a second container numbered {}) ", n, sid).as_bytes());
+                            }
+                            let first = index.len();
+                            index.extend_from_slice(&data_part);
+                            let twin = RObj::Stream(vec![(b"Type".to_vec(), RObj::Name(b"ObjStm".to_vec())), (b"N".to_vec(), RObj::Int(nums.len() as i64)), (b"First".to_vec(), RObj::Int(first as i64))], index);
+                            let row = self.alloc_num(&mut next_free_num, &mut gap_nums);
+                            w.container_ids.insert(row);
+                            let off2 = self.indirect((sid, 0), &twin, None);
+                            ents.insert(row, Ent::InUse(off2, 0));
+                        }
                         for (k, n) in nums.iter().enumerate() {
                             if Some(*n) != ghost {
                                 ents.insert(*n, Ent::Compressed(sid, k));
